@@ -384,7 +384,22 @@ func genC15(r *Rng, tier string) []*Case {
 					}
 					o.Positive = ip(3 + r.Intn(2)) // ids 3, 4 are never created
 				}
-				h.Ops = append(h.Ops, o)
+				// a refused compute leaves the global trust exactly as it was: bracket it with Gets (and give the
+				// vector contents that do not sum to 1 and a dimension of its own now and then)
+				if r.Chance(50) {
+					h.Ops = append(h.Ops, GOp{Op: "mcreate", ID: o.ID},
+						GOp{Op: "mupdate", ID: o.ID, TS: []uint64{1}, Es: []GEntry{{I: "0", J: "1", V: 1}, {I: "1", J: "0", V: 1}, {I: "3", J: "2", V: 2}}},
+						GOp{Op: "vcreate", ID: o.Global},
+						GOp{Op: "vupdate", ID: o.Global, TS: []uint64{uint64(1 + r.Intn(9))}, Es: []GEntry{{I: "0", V: JFloat(2 + r.Pos())}, {I: strconv.Itoa(r.Intn(7)), V: JFloat(r.Pos())}}})
+				}
+				if r.Chance(40) { // fails only inside the iteration, after the inputs were loaded, aligned and canonicalised
+					pre := 2
+					o.Pre, o.Alpha, o.Eps = &pre, nil, nil
+					h.Ops = append(h.Ops, GOp{Op: "vcreate", ID: pre},
+						GOp{Op: "vupdate", ID: pre, TS: []uint64{3}, Es: []GEntry{{I: "1", V: JFloat(math.Inf(1))}}})
+				}
+				h.Ops = append(h.Ops, GOp{Op: "vget", ID: o.Global}, o, GOp{Op: "vget", ID: o.Global})
+				continue
 			}
 		}
 		cs = append(cs, mk("GAdv", h))
